@@ -37,9 +37,11 @@ type walletRig struct {
 	opts []wallet.Option
 	resD time.Duration
 	tip  *gen.Node
-	now  time.Time
-	resv []*reservation
-	bo   gen.BlockOpts
+	// lagTip: the wallet's own tip while it has not been told about the newest blocks
+	lagTip *gen.Node
+	now    time.Time
+	resv   []*reservation
+	bo     gen.BlockOpts
 }
 
 func (r *walletRig) sync() {
@@ -329,8 +331,12 @@ func (r *walletRig) fundV2(amount types.Currency, unconfirmed bool, label string
 	if len(ins) > 0 {
 		rv = r.reserve(label, ins)
 	}
-	if basis != r.tip.Index() && len(ins) > 0 {
-		e.Violationf("C07.selection", "basis", "%s: returned basis %v, the wallet's tip is %v", label, basis, r.tip.Index())
+	walletTip := r.tip
+	if r.lagTip != nil {
+		walletTip = r.lagTip
+	}
+	if basis != walletTip.Index() && len(ins) > 0 {
+		e.Violationf("C07.selection", "basis", "%s: returned basis %v, the wallet's tip is %v", label, basis, walletTip.Index())
 	}
 	return &fundedV2{txn: txn, basis: basis, toSign: toSign, rv: rv}, nil
 }
@@ -479,9 +485,33 @@ func runC07(e *sim.Env) {
 	for i := 0; i < steps; i++ {
 		e.Step()
 		v2ok := r.tip.Height+1 >= r.net.Allow()
-		op := e.Pick(8, 3, 3, 3, 2, 2, 2, 1, 2, 2)
+		op := e.Pick(8, 3, 3, 3, 2, 2, 2, 1, 2, 2, 2)
 		label := fmt.Sprintf("op%d", i)
 		switch op {
+		case 10: // fund while the wallet has not heard of the newest blocks yet
+			if !v2ok {
+				continue
+			}
+			// (empty blocks: what the wallet believes unspent stays unspent)
+			r.lagTip = r.tip
+			for j, k := 0, e.Range(1, 5); j < k; j++ {
+				r.tip = r.tree.Extend(e, r.tip, gen.BlockOpts{Now: r.now, Miner: types.VoidAddress})
+				if err := r.s.cm.AddBlocks([]types.Block{r.tip.Block}); err != nil {
+					e.Violationf("C07.valid-accepted", "block", "empty block rejected: %v", err)
+				}
+			}
+			var bal wallet.Balance
+			e.Guard("C07.panic", "Balance", func() { bal, _ = r.w.Balance() })
+			if amount := bal.Spendable.Div64(uint64(e.Range(1, 20))); !amount.IsZero() {
+				f, err := r.fundV2(amount, false, label+" (wallet behind the chain)")
+				e.Shape("fund-lagging", fmt.Sprint(err != nil))
+				if err == nil && len(f.txn.SiacoinInputs) > 0 {
+					r.broadcast(f, label+" (wallet behind the chain)")
+					e.Fault("funded-while-wallet-behind-chain")
+				}
+			}
+			r.lagTip = nil
+			r.sync()
 		case 0: // fund
 			if !v2ok {
 				r.mine(1)
